@@ -35,6 +35,8 @@ def oracle(case, out):
         exp, breaches, pred = c10.reference(desc, role, seq)[:3]
         if pred is True and score != Fraction(repr(float(best))):
             return "documented goal met but the score is not the declared best"
+        if pred is False and score == Fraction(repr(float(best))):
+            return "score equals the declared best (flagged optimal) although the documented goal is not met"
     return None
 
 
